@@ -14,6 +14,33 @@ struct Data {
   int64_t applied = 0; // number of updates applied to this instance
 };
 
+// Heap-owning instance type (config "heap2"): the state lives in a separately allocated array that every update replaces, so a read
+// functor running on an instance under modification touches freed memory (heap shadow / ASan) besides tripping the monitor.
+struct HeapData {
+  std::vector<int64_t> cells; // cells = {v, v * 3 + 1, applied}; re-allocated by every update
+  HeapData() : cells{0, 1, 0} {}
+};
+inline int64_t get_v(const Data& d) { return d.v; }
+inline int64_t get_shadow(const Data& d) { return d.shadow; }
+inline void set_v(Data& d, int64_t id) { d.v = id; }
+inline void set_shadow(Data& d, int64_t id) {
+  d.shadow = id * 3 + 1;
+  d.applied++;
+}
+inline int64_t get_v(const HeapData& d) { return d.cells[0]; }
+inline int64_t get_shadow(const HeapData& d) { return d.cells[1]; }
+inline void set_v(HeapData& d, int64_t id) {
+  std::vector<int64_t> fresh(d.cells.begin(), d.cells.end()); // new block; the old one is freed below
+  fresh[0] = id;
+  d.cells.swap(fresh);
+}
+inline void set_shadow(HeapData& d, int64_t id) {
+  d.cells[1] = id * 3 + 1;
+  d.cells[2]++;
+  if (id % 3 == 0)
+    d.cells.resize(3 + (size_t)(id % 7)); // growth / shrink: another re-allocation from time to time
+}
+
 struct Monitor {
   struct Inst {
     const void* addr = nullptr;
@@ -99,14 +126,16 @@ struct POp {
   uint8_t kind;
   int64_t id;
 };
+template <class D>
 struct Worker {
-  xenium::left_right<Data>* lr;
+  xenium::left_right<D>* lr;
   std::vector<POp> prog;
   std::vector<OpRec> recs;
   bool weak;
   int tid;
 };
 
+template <class Data>
 void do_op(xenium::left_right<Data>* lr, const POp& op, OpRec& o, bool weak, int tid) {
   Recorder rec{weak};
   o.thread = (uint8_t)tid;
@@ -118,10 +147,9 @@ void do_op(xenium::left_right<Data>* lr, const POp& op, OpRec& o, bool weak, int
     xrt::op_begin(L_UPDATE, false);
     lr->update([id](Data& d) {
       g_mon->write_enter(&d, id);
-      d.v = id;
+      set_v(d, id);
       g_tick->fetch_add(1, std::memory_order_relaxed);
-      d.shadow = id * 3 + 1;
-      d.applied++;
+      set_shadow(d, id);
       g_mon->write_exit(&d);
     });
     xrt::op_end();
@@ -139,10 +167,10 @@ void do_op(xenium::left_right<Data>* lr, const POp& op, OpRec& o, bool weak, int
     xrt::op_end();
     rec.end(o);
     o.a = 0;
-    o.r2 = snap.v;
-    if (snap.shadow != snap.v * 3 + 1) {
+    o.r2 = get_v(snap);
+    if (get_shadow(snap) != get_v(snap) * 3 + 1) {
       xrt::Quiet q;
-      g_mon->err("mixed-state", fmt("value returned by read() of T%d is a mixture of two states (v=%" PRId64 ", shadow=%" PRId64 ")", tid, snap.v, snap.shadow));
+      g_mon->err("mixed-state", fmt("value returned by read() of T%d is a mixture of two states (v=%" PRId64 ", shadow=%" PRId64 ")", tid, get_v(snap), get_shadow(snap)));
     }
   } else {
     int64_t bad = 0;
@@ -150,9 +178,9 @@ void do_op(xenium::left_right<Data>* lr, const POp& op, OpRec& o, bool weak, int
     xrt::op_begin(L_READ, true);
     int64_t v = lr->read([&bad](const Data& d) {
       g_mon->read_enter(&d);
-      int64_t a = d.v;
+      int64_t a = get_v(d);
       g_tick->fetch_add(1, std::memory_order_relaxed);
-      int64_t b = d.shadow;
+      int64_t b = get_shadow(d);
       if (b != a * 3 + 1)
         bad = 1;
       g_mon->read_exit(&d);
@@ -168,12 +196,15 @@ void do_op(xenium::left_right<Data>* lr, const POp& op, OpRec& o, bool weak, int
   }
 }
 
+template <class D>
 void worker_body(void* p) {
-  auto* w = (Worker*)p;
+  auto* w = (Worker<D>*)p;
   for (size_t i = 0; i < w->prog.size(); ++i)
     do_op(w->lr, w->prog[i], w->recs[i], w->weak, w->tid);
 }
 
+// CTOR: 0 = left_right(T source), 1 = left_right(T left, T right), 2 = left_right()
+template <class Data, int CTOR>
 void run_lr(const ExecCtx& ctx, ExecOut& out) {
   Rng rng(ctx.seed);
   static Monitor mon;
@@ -182,16 +213,21 @@ void run_lr(const ExecCtx& ctx, ExecOut& out) {
   xenium::left_right<Data>* lr;
   {
     xrt::quiet_end();
-    lr = new xenium::left_right<Data>(Data{});
+    if (CTOR == 0)
+      lr = new xenium::left_right<Data>(Data{});
+    else if (CTOR == 1)
+      lr = new xenium::left_right<Data>(Data{}, Data{});
+    else
+      lr = new xenium::left_right<Data>();
     g_tick = new std::atomic<int>(0);
     xrt::quiet_begin();
   }
   int nwriters = rng.range(1, 2), nreaders = rng.range(1, 3);
   int n = nwriters + nreaders;
-  std::vector<Worker> workers((size_t)n);
+  std::vector<Worker<Data>> workers((size_t)n);
   int64_t next_id = 1;
   for (int t = 0; t < n; ++t) {
-    Worker& w = workers[(size_t)t];
+    auto& w = workers[(size_t)t];
     int nops = rng.range(1, 5);
     for (int i = 0; i < nops; ++i) {
       bool upd = t < nwriters && rng.chance(3, 4);
@@ -200,12 +236,12 @@ void run_lr(const ExecCtx& ctx, ExecOut& out) {
   }
   std::vector<xrt::ThreadSpec> specs((size_t)n);
   for (int t = 0; t < n; ++t) {
-    Worker& w = workers[(size_t)t];
+    auto& w = workers[(size_t)t];
     w.lr = lr;
     w.weak = ctx.weak;
     w.tid = t + 1;
     w.recs.resize(w.prog.size());
-    specs[(size_t)t].fn = worker_body;
+    specs[(size_t)t].fn = worker_body<Data>;
     specs[(size_t)t].arg = &w;
     if (rng.chance(1, 4))
       specs[(size_t)t].start_delay = rng.below(60);
@@ -282,7 +318,16 @@ int main(int argc, char** argv) {
   xrt::quiet_begin();
   ScenarioDef def;
   def.name = "leftright";
-  def.configs = {"data3"};
-  def.run = [](const std::string&, const ExecCtx& ctx, ExecOut& out) { run_lr(ctx, out); };
+  def.configs = {"data3", "data3_lr", "heap2", "heap2_def"};
+  def.run = [](const std::string& cfg, const ExecCtx& ctx, ExecOut& out) {
+    if (cfg == "data3")
+      run_lr<Data, 0>(ctx, out);
+    else if (cfg == "data3_lr")
+      run_lr<Data, 1>(ctx, out);
+    else if (cfg == "heap2")
+      run_lr<HeapData, 0>(ctx, out);
+    else
+      run_lr<HeapData, 2>(ctx, out);
+  };
   return scenario_main(argc, argv, def);
 }
